@@ -205,7 +205,9 @@ func runC07(c *explore.Ctx) {
 	c.Rule = "E1: BFS to closure over AddOrReplace/Remove/ClearAll on the real retained trie store, every new state: GetRetainedMessage for every probe topic, GetMatchedMessages for every filter of the C02 universe, Iterate, copy-independence of results, vs map + reference matcher."
 	c.Trusted = []string{"refmqtt.Match", "statekey.Dump", "vsched default schedule for the wire-level part"}
 	c.Rule += " E2 (wire): every history of <=2 (thorough 3) retained publishes/clears over {a, a/b, $SYS/x} x every SUBSCRIBE shape (6 filters incl. shared x QoS x Retain Handling x RAP x v5/v3.1.1 x subscribe once/twice) on a fresh in-process broker: retained store content, exact replay set with QoS min and RETAIN=1, Retain Handling / re-subscription / shared rules, RETAIN of a live publish."
+	c.Rule += " E2b: every SUBSCRIBE packet with 2 (thorough 3) distinct filters from {a, a/#, +, $share/g/a, $share/g/#} x Retain Handling per filter, in every order, sent once and twice: the replay is the union of what each non-shared filter is due."
 	c07Store(c)
+	c07WireMultiAll(c)
 	c07WireAll(c)
 }
 
@@ -352,6 +354,132 @@ func c07Wire(c *explore.Ctx, hist []c07Hist, k c07SubCase) {
 			}
 		}
 		swallowedPanic(c, w, cas)
+	})
+}
+
+// ---- E2b: SUBSCRIBE packets carrying several filters (shared and non-shared mixed)
+
+type c07Part struct {
+	filter string
+	rh     byte
+}
+
+func c07WireMulti(c *explore.Ctx, parts []c07Part, twice bool) {
+	cas := func() any {
+		var ps []string
+		for _, p := range parts {
+			ps = append(ps, fmt.Sprintf("%s rh%d", p.filter, p.rh))
+		}
+		return map[string]any{"part": "replay-on-multi-filter-subscribe", "retained": []string{"a=v1 q1", "a/b=v2 q0"}, "subscribe_packet": ps, "twice": twice}
+	}
+	c.Count("executions", 1)
+	execBody(c, "C07", cas, func() {
+		w := harness.NewWorld(harness.DefaultConfig(), server.Hooks{})
+		p := w.Dial("P")
+		p.Connect(harness.ConnectOpts{ClientID: "p", Clean: true, Version: refmqtt.V5})
+		p.Send(&refmqtt.Packet{Type: refmqtt.PUBLISH, Topic: "a", Retain: true, QoS: 1, PacketID: 1, Payload: []byte("v1")})
+		p.Send(&refmqtt.Packet{Type: refmqtt.PUBLISH, Topic: "a/b", Retain: true, Payload: []byte("v2")})
+		vsched.Settle()
+		kept := map[string]byte{"a": 1, "a/b": 0}
+		s := w.Dial("S")
+		s.Connect(harness.ConnectOpts{ClientID: "s", Clean: true, Version: refmqtt.V5})
+		rounds := 1
+		if twice {
+			rounds = 2
+		}
+		seen := map[string]bool{}
+		for round := 0; round < rounds; round++ {
+			var subs []refmqtt.Sub
+			for _, pt := range parts {
+				subs = append(subs, refmqtt.Sub{Filter: pt.filter, QoS: 1, RH: pt.rh})
+			}
+			ack, rest := s.Subscribe(0, subs...)
+			if ack == nil || len(ack.Codes) != len(parts) {
+				c.Violate("subscribe", "refused", cas(), "granted", fmt.Sprint(ack))
+				return
+			}
+			var exp []string
+			for _, pt := range parts {
+				_, filt, shared := refmqtt.SplitShared(pt.filter)
+				isNew := !seen[pt.filter]
+				seen[pt.filter] = true
+				if shared || pt.rh == 2 || (pt.rh == 1 && !isNew) {
+					continue
+				}
+				for t, q := range kept {
+					if refmqtt.Match(t, filt) {
+						exp = append(exp, fmt.Sprintf("%s q%d ret1", t, q))
+					}
+				}
+			}
+			var got []string
+			for _, r := range rest {
+				if r == nil || r.Type != refmqtt.PUBLISH {
+					got = append(got, fmt.Sprint(r))
+					continue
+				}
+				got = append(got, fmt.Sprintf("%s q%d ret%d", r.Topic, r.QoS, b2i(r.Retain)))
+				if r.QoS == 1 {
+					s.Send(&refmqtt.Packet{Type: refmqtt.PUBACK, PacketID: r.PacketID})
+				}
+			}
+			vsched.Settle()
+			sort.Strings(exp)
+			sort.Strings(got)
+			if !eqStrings(got, exp) {
+				cl := classifyDiff(got, exp)
+				if len(got) == len(exp) && strings.ReplaceAll(strings.Join(got, ";"), "ret0", "ret1") == strings.Join(exp, ";") {
+					// the RETAIN flag of replayed messages is judged (and recorded) by the single-filter part
+					continue
+				}
+				mixed := false
+				for _, pt := range parts {
+					if strings.HasPrefix(pt.filter, "$share/") {
+						mixed = true
+					}
+				}
+				cl += map[bool]string{true: "-packet-mixes-shared-and-non-shared", false: "-several-non-shared-filters"}[mixed]
+				cl += map[int]string{0: "-first-subscribe", 1: "-re-subscribe"}[round]
+				c.Violate("replay-on-subscribe", cl, cas(), strings.Join(exp, "; "), strings.Join(got, "; "))
+				return
+			}
+		}
+		swallowedPanic(c, w, cas)
+	})
+}
+
+func c07WireMultiAll(c *explore.Ctx) {
+	var cands []c07Part
+	for _, f := range []string{"a", "a/#", "+", "$share/g/a", "$share/g/#"} {
+		for _, rh := range []byte{0, 1, 2} {
+			if strings.HasPrefix(f, "$share/") && rh != 0 {
+				continue
+			}
+			cands = append(cands, c07Part{f, rh})
+		}
+	}
+	var packets [][]c07Part
+	for _, a := range cands {
+		for _, b := range cands {
+			if a.filter == b.filter {
+				continue
+			}
+			packets = append(packets, []c07Part{a, b})
+			if !c.Quick() {
+				for _, d := range cands {
+					if d.filter != a.filter && d.filter != b.filter {
+						packets = append(packets, []c07Part{a, b, d})
+					}
+				}
+			}
+		}
+	}
+	c.Extra["multi_filter_subscribe_packets"] = len(packets)
+	c.Units("replay-multi", len(packets), func(u int) {
+		c07WireMulti(c, packets[u], false)
+		c07WireMulti(c, packets[u], true)
+		c.Count("transitions", 2)
+		c.Count("states", 2)
 	})
 }
 
